@@ -4,6 +4,7 @@
    indices.  Only statements; every proof is [exact <lemma>]. *)
 From AL Require Import Base.AList Base.StrOrder Out.StableSort Out.Determinism.
 From AL Require Graph.Dfs Graph.Needs Graph.NeedsProofs Graph.NeedsOrder.
+From AL Require Gen.GenAmbient Out.Ambient.
 
 (* the final sort.Stable by position is a function of the per-position
    sub-sequences only: every re-ordering that keeps same-position diagnostics
@@ -107,3 +108,13 @@ Theorem C02_multi_file_order_indep : forall (A : Type) (results : list A) (order
   (forall i, i < length results -> In i order) -> assemble results order = map Some results.
 Proof. exact (@multi_file_order_indep). Qed.
 Print Assumptions C02_multi_file_order_indep.
+
+(* the rules read nothing but their inputs: every place of the package's source (re-listed from
+   the .go files on every run, Gen/GenAmbient.v) that reads the clock, the environment, the
+   process, the machine or a random source is one of the known places, whose value goes to the
+   verbose log (elapsed time), is the default of an option (working directory) or sizes the
+   process pool — never into a diagnostic *)
+Theorem C02_ambient_reads_are_known : forall s,
+  In s GenAmbient.ambient_sites -> exists k, In (s, k) Ambient.allowed.
+Proof. exact Ambient.ambient_sites_known. Qed.
+Print Assumptions C02_ambient_reads_are_known.
